@@ -162,10 +162,20 @@ struct Array {
 
     inline void operator+=(const Type_T &item) {
         if (Size() == Capacity()) {
-            resize((Capacity() | (Capacity() == 0)) * SizeT{2});
+            // 'item' may live in this array: copy it before the old storage is released.
+            constexpr SizeT32 type_size = sizeof(Type_T);
+            Type_T           *src       = Storage();
+
+            setCapacity((Capacity() | (Capacity() == 0)) * SizeT{2});
+
+            Type_T *des = allocate();
+            Memory::Initialize((des + Size()), item);
+            Memory::Copy(des, src, (Size() * type_size));
+            Memory::Deallocate(src);
+        } else {
+            Memory::Initialize((Storage() + Size()), item);
         }
 
-        Memory::Initialize((Storage() + Size()), item);
         ++index_;
     }
 
